@@ -118,6 +118,25 @@ check("C19", "exploration",
       "deterministic simulation with fault injection: seeded schedule/fault/crash search; every delete request and every committed controller write judged against the store and the read/write log",
       "§7 C19")
 
+check("C15", "exploration",
+      "Seeded deterministic simulation of W-pkg: the real package manager and revision reconcilers for Provider, Configuration and Function packages with the real image backend, parser, linters, establisher and on-disk package cache, over a simulated registry and a simulated disk. "
+      "Package streams are drawn: 0-3 objects, wrong / missing / duplicate metadata, kinds the xpkg specification forbids for the type, Crossplane version constraints met or unmet (with and without ignoreCrossplaneConstraints), annotated single layer, plain image filesystem and several annotated layers; valid annotated images are produced by the repo's own xpkg builder (build -> parse round trip). "
+      "Faults: API errors/lost replies/conflicts/crashes at any call, registry errors, disk errors, short writes, ENOSPC and crashes with torn writes inside the cache tee, truncated or bit-flipped cache entries between reconciles, two revisions of a package reconciled over the same cache, version switches. "
+      "Judged at every committed write of a revision reconcile on a package object: never for a package that independent rules (written from contributing/specifications/xpkg.md) reject, and only objects of the package stream of the image the source names. "
+      "After every reconcile that reports healthy: the package is valid, status.objectRefs equals the image's declared object set (same from registry or cache), and for active revisions every declared object exists.",
+      TB + " ValidatingWebhookConfiguration objects are not generated (the establisher deliberately renames them). Signature verification is not driven (feature off). A revision wedged forever by a corrupt cache entry establishes nothing and is therefore not a violation of the statement.",
+      "deterministic simulation with fault injection: seeded package/fault/crash/disk-fault search; every establish write and every healthy status judged against independent packaging rules and the registry's record",
+      "§7 C15")
+
+check("C16", "exploration",
+      "Same world as C15 with the Kubernetes garbage collector as an interleaved actor: packages sharing object names, cluster objects pre-existing uncontrolled or controlled by a stranger, an API-server admission rule that rejects one package object, user-data instances of package CRDs, upgrade and rollback between two versions with active and inactive revisions reconciled in any order, API faults and crashes. "
+      "Oracles: a revision reconcile during which some package object is controlled by another owner or rejected by the API server commits no change to any package object (all-or-nothing, from the write log); an object create is only committed by a reconcile that read its revision as Active; "
+      "after a successful reconcile an Active revision controls every declared object and each lists the package as a non-controlling owner, an Inactive revision controls nothing and still owns what it owned when the reconcile started; "
+      "while a package exists the garbage collector never deletes one of its CRDs, and never a user-data instance.",
+      TB + " Ownership conflicts between two Crossplane packages arise only by chance of the drawn object names.",
+      "deterministic simulation with fault injection: seeded schedule/fault/crash search; per-reconcile oracle over the write/read log, ownership invariants after successful reconciles, garbage-collector actor",
+      "§7 C16")
+
 def main():
     props = [json.loads(l)["id"] for l in open(os.path.join(V, "properties.jsonl"))]
     na = []
